@@ -123,7 +123,7 @@ class Outcome:
         kf = known_findings(self.pid)
         real = []
         for v in self.violations:
-            hit = next((f for f in kf if f.get("match") and f["match"] in (v.get("clause", "") + " " + str(v.get("case", "")))), None)
+            hit = next((f for f in kf if f.get("match") and f["match"] in (v.get("clause", "") + " case=" + str(v.get("case", "")))), None)
             if hit:
                 self.known.append((hit, v))
             else:
